@@ -147,6 +147,19 @@ public:
         }
     }
 
+    // ASan builds: lift / re-establish the manual poisoning of red zones and freed blocks (the simulator's own snapshots
+    // read whole blocks; the system under test must still trip over them)
+    void asan_unpoison_all() { SIM_ASAN_UNPOISON(base_, bump_ ? bump_ : 1); }
+    void asan_repoison_all() {
+#if defined(__SANITIZE_ADDRESS__)
+        for (auto& b : blocks_) {
+            unsigned char* p = base_ + b.off;
+            SIM_ASAN_POISON(p - RZ, RZ);
+            if (b.live) SIM_ASAN_POISON(p + b.req, b.capb - b.req + RZ); else SIM_ASAN_POISON(p, b.capb + RZ);
+        }
+#endif
+    }
+
     size_t live_count() const { size_t n = 0; for (auto& b : blocks_) n += b.live; return n; }
     std::string live_summary() const {
         std::string s;
